@@ -1,8 +1,8 @@
-import TrionModel.Lemmas.Tridas
+import TrionModel.Lemmas.TridasFuel
 /-!
 # C20 — the tridas listing re-assembles to the code it was produced from
 
-Property theorems only (helper lemmas: `Lemmas/Tridas.lean`).  Model: `Trion.Tridas.listing` (`Model/Tridas.lean`),
+Property theorems only (helper lemmas: `Lemmas/Tridas.lean`, `Lemmas/TridasFuel.lean`).  Model: `Trion.Tridas.listing` (`Model/Tridas.lean`),
 the work-list traversal and the printing loop of `src/bin/disassembler.rs`, parametric in the decoder.
 -/
 namespace Trion.Tridas
@@ -34,40 +34,30 @@ theorem labels_unique {decode : Decoder} {b : List UInt8} {st : St} (h : travers
 /-! ## under the property's hypothesis
 
 `WellFormed decode b es` (`Lemmas/Tridas.lean`): `es` lists (address, instruction, address after it) with
-`decode (b.drop (addr - BASE)) = some (after - addr, instr)` for every entry; the entries are strictly ascending, start
-at `BASE`, each entry that ends before the end of the file is followed by an entry (`next`); every in-file target of a
-direct branch is the address of an entry (`targets`); every entry is reachable from the first by fall-through
-(`getReturns`) and direct branches (`reach`); `BASE + b.length < 2^32`. -/
+`decode (b.drop (addr - BASE)) = some (after - addr, instr)` for every entry; the entries are strictly ascending, one
+starts at `BASE`, each is non-empty and ends inside the file (`size`), each entry that falls through (`getReturns`) and
+ends before the end of the file is followed by an entry (`next`); every in-file target of a direct branch is the address
+of an entry (`targets`); every entry is reachable from the first by fall-through and direct branches (`reach`);
+`BASE + b.length < 2^32`.  (For a gap-free segmentation `Chain es BASE (BASE + b.length)` of a non-empty file,
+`sorted`/`first`/`size`/`next` follow: `WellFormed.of_chain`.) -/
 
-/-- C20.covers (partial)  Under the hypothesis, if the traversal returns, the listing's instruction lines are exactly the
-instructions of the file, each once, in address order — and the only way it does not return is the MODEL's loop bound
-(`Panic.fuel`): neither the decoder `unwrap()` nor the two address additions can panic.
+/-- C20.covers  Under the hypothesis the listing is produced — the decoder `unwrap()` and the two address additions do not
+panic, and the loops terminate within the model's bounds (outer `2·len + 2`, inner `len`; `Lemmas/TridasFuel.lean`: the
+measure `|queries| + #{instructions not yet recorded}` drops with every popped query) — and its instruction lines are
+exactly the instructions of the file, each once, in address order. -/
+theorem covers_all {decode : Decoder} {b : List UInt8} {es : List Entry} (wf : WellFormed decode b es) :
+    ∃ ls, listing decode b = .ok ls ∧ instrLines ls = es.map (fun e => (e.addr, e.instr)) := by
+  obtain ⟨st, hst, hes⟩ := traverse_covers_ok wf
+  refine ⟨Line.header :: render st.branches st.instrs false BASE, ?_, ?_⟩
+  · unfold listing; rw [hst]
+  · simp only [instrLines]
+    rw [instrLines_render, hes]
 
-Full statement `covers_all : WellFormed decode b es → ∃ ls, listing decode b = .ok ls ∧ instrLines ls = …`.
-Missing: the proof that the bound `2·len + 2` of the model's outer loop (and `len` of the inner loop) always suffices
-(the Rust loops have no bound; the measure is 2·(instructions not yet recorded) + |queries|).  The correspondence runs
-never produced `fuel`. -/
-theorem covers_all_partial {decode : Decoder} {b : List UInt8} {es : List Entry} (wf : WellFormed decode b es) :
-    (∀ ls, listing decode b = .ok ls → instrLines ls = es.map (fun e => (e.addr, e.instr))) ∧
-    (∀ p, listing decode b = .error p → p = .fuel) := by
-  have h := traverse_covers wf
-  unfold OkOrFuel at h
-  unfold listing
-  constructor
-  · intro ls hl
-    split at hl
-    · cases hl
-    · rename_i st hst
-      rw [hst] at h
-      cases hl
-      simp only [instrLines]
-      rw [instrLines_render, h]
-  · intro p hp
-    split at hp
-    · rename_i p' hst
-      rw [hst] at h
-      cases hp; exact h
-    · cases hp
+/-- C20.covers, error-free form: no outcome of `listing` is an error (in particular not the model's `Panic.fuel`). -/
+theorem listing_no_error {decode : Decoder} {b : List UInt8} {es : List Entry} (wf : WellFormed decode b es)
+    (p : Panic) : listing decode b ≠ .error p := by
+  obtain ⟨ls, hl, _⟩ := covers_all wf
+  rw [hl]; intro h; cases h
 
 /-- C20.labels (c)  `labels_unique` under the hypothesis: every direct branch target inside the file is introduced by
 exactly one label line (which by `labels_attached` sits immediately before the instruction at that address). -/
@@ -80,9 +70,9 @@ theorem labels_unique_wellFormed {decode : Decoder} {b : List UInt8} {es : List 
   · cases hl
   · rename_i st hst
     cases hl
-    have hcov := traverse_covers wf
-    unfold OkOrFuel at hcov
-    rw [hst] at hcov
+    obtain ⟨st', hst', hcov⟩ := traverse_covers_ok wf
+    rw [hst] at hst'
+    cases hst'
     have hbr := traverse_brInv hst e (by rw [hcov]; exact he) d hb
     rw [labels_unique hst d]
     have hex : ∃ e' ∈ st.instrs, e'.addr = d := by rw [hcov]; exact wf.targets e he d hb hin
@@ -90,19 +80,20 @@ theorem labels_unique_wellFormed {decode : Decoder} {b : List UInt8} {es : List 
 
 /-- C20.roundtrip (partial)  If additionally the entries are consecutive (`Chain es BASE (BASE + b.length)`: the
 segmentation covers every byte) and `encode` inverts the decoder on them (what C02 provides:
-`encode e.instr = the bytes of e in b`), then the instruction lines of the listing, re-encoded in order, concatenate to
-the input file.
+`encode e.instr = the bytes of e in b`), then the listing is produced and its instruction lines, re-encoded in order,
+concatenate to the input file.
 
 Full statement `listing_roundtrip : wellFormedBinary b → Asm.run (text (listing b)) = .success {0x20000000 ↦ b}`.
 Missing: the assembler model (`Asm.run` on the listing text: `.addr` header, label lines defining `l_XXXXXXXX` as
 constants, C19's `show`/`build` round trip per instruction line placing each instruction at its address); here the
-assembler is represented by `encode` applied to the instruction lines in order.  Also inherits the fuel gap above. -/
+assembler is represented by `encode` applied to the instruction lines in order. -/
 theorem listing_roundtrip_partial {decode : Decoder} {b : List UInt8} {es : List Entry}
     (wf : WellFormed decode b es) (hc : Chain es BASE (BASE + b.length))
-    (encode : Instr → List UInt8) (henc : ∀ e ∈ es, encode e.instr = slice b e)
-    {ls : List Line} (hl : listing decode b = .ok ls) :
-    ((instrLines ls).map (fun x => encode x.2)).flatten = b := by
-  rw [(covers_all_partial wf).1 ls hl]
+    (encode : Instr → List UInt8) (henc : ∀ e ∈ es, encode e.instr = slice b e) :
+    ∃ ls, listing decode b = .ok ls ∧ ((instrLines ls).map (fun x => encode x.2)).flatten = b := by
+  obtain ⟨ls, hl, hi⟩ := covers_all wf
+  refine ⟨ls, hl, ?_⟩
+  rw [hi]
   have h1 : (es.map (fun e => (e.addr, e.instr))).map (fun x => encode x.2) = es.map (slice b) := by
     rw [List.map_map]
     apply List.map_congr_left
@@ -125,7 +116,7 @@ example : WellFormed exDecode [0, 0, 0, 0]
     Chain [⟨0x20000000, .b 0 (-2), 0x20000002⟩, ⟨0x20000002, .bx 14, 0x20000004⟩] BASE (BASE + 4) := by
   refine ⟨⟨by decide, by simp [Sorted], ⟨_, List.mem_cons_self, rfl⟩, ?_, ?_, ?_, ?_, ?_⟩, by simp [Chain, BASE]⟩
   · intro e he; simp at he; rcases he with rfl | rfl <;> simp [BASE]
-  · intro e he h; simp at he; rcases he with rfl | rfl
+  · intro e he _ h; simp at he; rcases he with rfl | rfl
     · exact ⟨_, List.mem_cons_of_mem _ List.mem_cons_self, rfl⟩
     · simp [BASE] at h
   · intro e he; simp at he; rcases he with rfl | rfl <;> rfl
@@ -139,5 +130,13 @@ example : WellFormed exDecode [0, 0, 0, 0]
   · intro e he; simp at he; rcases he with rfl | rfl
     · exact Reach.base
     · exact Reach.fall (e := ⟨0x20000000, .b 0 (-2), 0x20000002⟩) List.mem_cons_self Reach.base rfl (by simp [BASE])
+
+/-- the remaining hypotheses are satisfiable on that file: an encoder inverting the decoder on its two instructions
+(`listing_roundtrip_partial`), and an in-file branch target (`labels_unique_wellFormed`) -/
+example : (∀ e ∈ [(⟨0x20000000, .b 0 (-2), 0x20000002⟩ : Entry), ⟨0x20000002, .bx 14, 0x20000004⟩],
+      (fun _ => [0, 0]) e.instr = slice [0, 0, 0, 0] e) ∧
+    getBranch (.b 0 (-2)) 0x20000000 = some 0x20000002 ∧ inFile 4 0x20000002 := by
+  refine ⟨?_, rfl, by simp [inFile, BASE]⟩
+  intro e he; simp at he; rcases he with rfl | rfl <;> rfl
 
 end Trion.Tridas
